@@ -82,9 +82,6 @@ def lnsHandler : Handler := fun lhs rhs => do
                    tag := s!"{op}/{bt}/{tg}", trivial := special }
       else
         let ok := mulDivWrapOk n isDiv va vb o
-        let cls := match va, vb with
-          | .num _ _, .num _ eb => if isDiv && eb ≠ 0 then "lns.div.wrapping" else ""
-          | _, _ => ""
         let tg := match va, vb with
           | .num _ ea, .num _ eb =>
             let S := if isDiv then ea - eb else ea + eb
@@ -93,7 +90,7 @@ def lnsHandler : Handler := fun lhs rhs => do
           | _, _ => "special"
         return { model := toHex m, specOk := ok,
                  reason := if ok then "" else "exponent field is not the wrapped exact " ++ (if isDiv then "difference" else "sum"),
-                 cls := if ok then "" else cls, tag := s!"{op}/{bt}/{tg}", trivial := special }
+                 tag := s!"{op}/{bt}/{tg}", trivial := special }
     | "add", [as, bs2, das, dbs, ss, lgs, mxs, mns, hms], [os]
     | "sub", [as, bs2, das, dbs, ss, lgs, mxs, mns, hms], [os] =>
       let some a := parseHex as | throw "a"
